@@ -39,10 +39,7 @@ theorem clause_attrs : cAttrs p ff0 (runOnce p ff0) = true := by
     obtain ⟨o, d, r, sel, _, hshape⟩ := runOnce_shape p ff0 hwf hskip
     rw [hshape]
     simp only [cAttrs, beq_iff_eq]
-    have hk0 : keysNodup p.attrs0 := by
-      have h := hwf
-      simp only [wf, Bool.and_eq_true] at h
-      exact (idsNodup_iff _).mp h.2
+    have hk0 : keysNodup p.attrs0 := wf_attrs p hwf
     exact sortAttrs_eq_of_aget_eq _ _ (runCore_inv2 p ff0 hwf).keys hk0 (attrs_restored p ff0 hwf hskip)
 
 end perRun
